@@ -66,6 +66,26 @@ def run_cases(args):
     rnd = random.Random(seed)
     cx = Cx(rnd)
     tr = []
+    def warm(fn, a, b=None):
+        """the same Event objects have been through an earlier call while they described OTHER intervals (each list
+        shifted as a whole), and were then given their present instants through the public setters"""
+        if rnd.random() >= 0.3:
+            return
+        MS = timedelta(milliseconds=cx.c.scale)
+        da, db = rnd.choice([1, 2, 5, -3]) * MS, rnd.choice([0, 3, -1, 7]) * MS
+        saved = [(e, e.timestamp, e.duration) for e in a + (b or [])]
+        for e in a:
+            e.timestamp = e.timestamp + da
+        for e in (b or []):
+            e.timestamp = e.timestamp + db
+        try:
+            fn()
+        except Exception:
+            pass
+        for e, t, d in saved:
+            e.timestamp = t
+            e.duration = d
+
     def one_case(c):
         op = c[0]
         if op == "intersect":
@@ -73,11 +93,13 @@ def run_cases(args):
             if c[3]:
                 rnd.shuffle(a)
                 rnd.shuffle(b)
+            warm(lambda: filter_period_intersect(a, b), a, b)
             pa, pb = cx.proj(a), cx.proj(b)
             out = filter_period_intersect(a, b)
             tr.append({"op": op, "A": pa, "B": pb, "out": cx.proj(out), "A2": cx.proj(a), "B2": cx.proj(b)})
         elif op == "union":
             a, b = cx.mk(c[1], Event, 1), cx.mk(c[2], Event, 101)
+            warm(lambda: period_union(a, b), a, b)
             pa, pb = cx.proj(a), cx.proj(b)
             out = period_union(a, b)
             tr.append({"op": op, "A": pa, "B": pb, "out": cx.proj(out)})
@@ -85,11 +107,13 @@ def run_cases(args):
             a = cx.mk(c[1], Event, 1)
             if c[3]:
                 rnd.shuffle(a)
+            warm(lambda: flood(a, cx.sec(c[2])), a)
             pa = cx.proj(a)
             out = flood(a, cx.sec(c[2]))
             tr.append({"op": op, "A": pa, "P": c[2], "out": cx.proj(out), "A2": cx.proj(a)})
         elif op == "uno":
             a, b = cx.mk(c[1], Event, 1, "a"), cx.mk(c[2], Event, 101, "b")
+            warm(lambda: union_no_overlap(a, b), a, b)
             pa, pb = cx.proj(a), cx.proj(b)
             out = union_no_overlap(a, b)
             tr.append({"op": op, "A": pa, "B": pb, "out": cx.proj(out), "A2": cx.proj(a), "B2": cx.proj(b)})
